@@ -5,7 +5,7 @@ CONSTANTS
   IdMax = 60
   Cap = 8
   CtlCap = 8
-  RMs = {1, 2, 8}
+  RMs = {1, 2, 8, 20}
   MaxIn = 3
   MaxFail = 2
   MaxQ0 = 1
